@@ -55,6 +55,17 @@ func Ghost_dlvContent(m Manager) []byte            { return ghost_dlvContent(m) 
 //@ func (*Delivery).ID
 //@   ensures ret == d.Meta.ID
 //@   serves C01
+// spec_carries: the message handed to the store is a delivery whose reader yields two generated
+// header lines followed by exactly the bytes of the DATA block (C02).
+//@ pred spec_carries(m storage.Message, source []byte) bool = m.(*Delivery) != nil && m.(*Delivery).Reader != nil &&
+//@     spec_endsWith(ghost_rcontent(m.(*Delivery).Reader), vcTokBytes(source))
+
+//@ pred spec_endsWith(c vcTok, tail vcTok) bool = exists a string, b string :: { vcTokStr(a), vcTokStr(b) } c == vcTokCat(vcTokStr(a), vcTokCat(vcTokStr(b), tail))
+
+// Source of a delivery: exactly what its Reader yields (C02).
+//@ func (*Delivery).Source
+//@   ensures[yieldsReader C02] ret1 == nil && ret0 != nil && ghost_rcontent(ret0) == ghost_rcontent(d.Reader)
+//@   serves C02
 
 // ---------------------------------------------------------------------------------------------
 // Counting over a sequence of flags (same definitions as in pop3; lemmas proved by induction).
@@ -125,6 +136,7 @@ func ghost_emitted(eb *extension.AsyncEventBroker[event.MessageMetadata]) vcSeq[
 //@         storage.Ghost_addBoxAt(s.Store, old(storage.Ghost_nadded(s.Store)) + j) == ghost_lastEmit(&s.ExtHost.Events.BeforeMessageStored).Mailboxes[j]
 //@   ensures[size C01] forall j int :: { storage.Ghost_addMsgAt(s.Store, j) } old(storage.Ghost_nadded(s.Store)) <= j && j < storage.Ghost_nadded(s.Store) && ghost_lastEmit(&s.ExtHost.Events.BeforeMessageStored) == nil ==>
 //@         storage.Ghost_addMsgAt(s.Store, j).Size() == int64(len(source)) && storage.Ghost_addMsgAt(s.Store, j).Mailbox() == storage.Ghost_addBoxAt(s.Store, j)
+//@   ensures[contentHandedOver C02] forall j int :: { storage.Ghost_addMsgAt(s.Store, j) } old(storage.Ghost_nadded(s.Store)) <= j && j < storage.Ghost_nadded(s.Store) ==> spec_carries(storage.Ghost_addMsgAt(s.Store, j), source)
 //@   ensures[storedEvents C16] ret == nil ==> ghost_nemitted(&s.ExtHost.Events.AfterMessageStored) - old(ghost_nemitted(&s.ExtHost.Events.AfterMessageStored)) == storage.Ghost_nadded(s.Store) - old(storage.Ghost_nadded(s.Store))
 //@   ensures[storedEventIdentity C16] forall j int :: { vcSeqAt(ghost_emitted(&s.ExtHost.Events.AfterMessageStored), j) } old(ghost_nemitted(&s.ExtHost.Events.AfterMessageStored)) <= j && j < ghost_nemitted(&s.ExtHost.Events.AfterMessageStored) ==>
 //@         vcSeqAt(ghost_emitted(&s.ExtHost.Events.AfterMessageStored), j) != nil &&
@@ -141,6 +153,7 @@ func ghost_emitted(eb *extension.AsyncEventBroker[event.MessageMetadata]) vcSeq[
 //@   loop 3: decreases len(recipients) - ridx
 //@   loop 4: invariant 0 <= ridx && ridx <= len(inbound.Mailboxes) && inbound != nil
 //@   loop 4: invariant storage.Ghost_nadded(s.Store) == old(storage.Ghost_nadded(s.Store)) + ridx
+//@   loop 4: invariant forall j int :: { storage.Ghost_addMsgAt(s.Store, j) } old(storage.Ghost_nadded(s.Store)) <= j && j < storage.Ghost_nadded(s.Store) ==> spec_carries(storage.Ghost_addMsgAt(s.Store, j), source)
 //@   loop 4: invariant ghost_nemitted(&s.ExtHost.Events.AfterMessageStored) == old(ghost_nemitted(&s.ExtHost.Events.AfterMessageStored)) + ridx
 //@   loop 4: invariant forall j int :: { inbound.Mailboxes[j] } 0 <= j && j < ridx ==> storage.Ghost_addBoxAt(s.Store, old(storage.Ghost_nadded(s.Store)) + j) == inbound.Mailboxes[j]
 //@   loop 4: invariant forall j int :: { storage.Ghost_addMsgAt(s.Store, j) } old(storage.Ghost_nadded(s.Store)) <= j && j < storage.Ghost_nadded(s.Store) ==>
@@ -151,7 +164,7 @@ func ghost_emitted(eb *extension.AsyncEventBroker[event.MessageMetadata]) vcSeq[
 //@         vcSeqAt(ghost_emitted(&s.ExtHost.Events.AfterMessageStored), j).Mailbox == storage.Ghost_addBoxAt(s.Store, j - old(ghost_nemitted(&s.ExtHost.Events.AfterMessageStored)) + old(storage.Ghost_nadded(s.Store)))
 //@   loop 4: decreases len(inbound.Mailboxes) - ridx
 //@   uses lemma_cnt_step lemma_cnt_bounds lemma_cnt_lt
-//@   serves C01 C16 C17
+//@   serves C01 C16 C17 C02
 
 // ---------------------------------------------------------------------------------------------
 // C14: the Manager interface as the HTTP handlers and the Go client rely on it.
@@ -160,6 +173,10 @@ func ghost_emitted(eb *extension.AsyncEventBroker[event.MessageMetadata]) vcSeq[
 // recent request, and what the most recent GetMessage / SourceReader returned.
 func ghost_nlisted(s storage.Store) int               { panic("ghost") }
 func ghost_listedBoxes(s storage.Store) vcSeq[string] { panic("ghost") }
+func ghost_rcontent(r io.Reader) vcTok                { panic("ghost") }
+func ghost_wcontent(w io.Writer) vcTok                { panic("ghost") }
+func ghost_lastSrcContent(m Manager) vcTok            { panic("ghost") }
+func Ghost_lastSrcContent(m Manager) vcTok            { return ghost_lastSrcContent(m) }
 func ghost_nGetMsg(m Manager) int                     { panic("ghost") }
 func ghost_nGetMeta(m Manager) int                    { panic("ghost") }
 func ghost_nMarkSeen(m Manager) int                   { panic("ghost") }
@@ -218,7 +235,8 @@ func Ghost_lastName(m Manager) string  { return ghost_lastName(m) }
 
 // SourceReader: a reader or an error, never neither.
 //@ iface Manager.SourceReader(self Manager, mailbox string, id string) (r io.ReadCloser, err error)
-//@   modifies ghost_nSource(self), ghost_argBox(self), ghost_argID(self), ghost_lastErr(self)
+//@   modifies ghost_nSource(self), ghost_argBox(self), ghost_argID(self), ghost_lastErr(self), ghost_lastSrcContent(self)
+//@   attr result-content=ghost_lastSrcContent
 //@   ensures (r != nil) != (err != nil)
 //@   ensures ghost_nSource(self) == old(ghost_nSource(self)) + 1 && ghost_argBox(self) == mailbox && ghost_argID(self) == id && ghost_lastErr(self) == err
 
@@ -245,13 +263,16 @@ func Ghost_lastName(m Manager) string  { return ghost_lastName(m) }
 // StoreManager refines the Manager contract (given the Store interface contract).
 //@ func (*StoreManager).GetMessage
 //@   requires s.Store != nil
+//@   modifies ghost_lastGot(s.Store), allof(ghost_srcContent)
 //@   ensures[refinesManager] (ret0 != nil) != (ret1 != nil)
 //@   ensures ret0 != nil ==> Spec_msgOK(ret0)
 //@   serves C14
 
 //@ func (*StoreManager).SourceReader
 //@   requires s.Store != nil
+//@   modifies ghost_lastGot(s.Store), allof(ghost_srcContent)
 //@   ensures[refinesManager] (ret0 != nil) != (ret1 != nil)
+//@   ensures[yieldsStoreSource C02] ret1 == nil ==> storage.Ghost_lastGot(s.Store) != nil && ghost_rcontent(ret0) == storage.Ghost_srcContent(storage.Ghost_lastGot(s.Store))
 //@   serves C14 C02
 
 //@ func (*StoreManager).GetMetadata
